@@ -1,5 +1,5 @@
 //@host src/motion_profile.rs
-//@config dev
+//@config dev,rel_default
 // C06: the six accessors of a MotionProfile (get_piece, get_mode, get_acceleration, get_velocity, get_position,
 // History::get) describe the same instant, for a SYMBOLIC profile: every private field is kani::any(),
 // constrained only by
@@ -200,7 +200,7 @@ fn c06_mode_table() {
         1 | 2 | 3 => {
             assert!(conv.ok() == mode);
             match (conv_unit, mode) {
-                (Ok(u), Some(m)) => assert!(u == Unit::new(1, -(kind_rank(m) as i8))),
+                (Ok(u), Some(m)) => assert!(ueq(u, Unit::new(1, -(kind_rank(m) as i8)))),
                 _ => assert!(false),
             }
         }
@@ -236,13 +236,13 @@ fn c06_presence_table() {
     assert!(v.is_some() == v_want);
     assert!(p.is_some() == p_want);
     if let Some(q) = a {
-        assert!(q.unit == Unit::new(1, -2));
+        assert!(ueq(q.unit, Unit::new(1, -2)));
     }
     if let Some(q) = v {
-        assert!(q.unit == Unit::new(1, -1));
+        assert!(ueq(q.unit, Unit::new(1, -1)));
     }
     if let Some(q) = p {
-        assert!(q.unit == Unit::new(1, 0));
+        assert!(ueq(q.unit, Unit::new(1, 0)));
     }
     cover_pieces!(r);
     kani::cover!(r == 4 && v.is_some() && p.is_none(), "reach: complete, velocity only");
@@ -279,7 +279,7 @@ fn c06_acceleration_value() {
     match a {
         None => assert!(r == 0),
         Some(q) => {
-            assert!(q.unit == MILLIMETER_PER_SECOND_SQUARED);
+            assert!(ueq(q.unit, MILLIMETER_PER_SECOND_SQUARED));
             let want = match r {
                 1 => mp.max_acc.value,
                 2 => 0.0,
@@ -381,9 +381,9 @@ fn c06_history_value_matches_accessor() {
                 None => assert!(false),
                 Some(q) => {
                     assert!(feq(x, q.value));
-                    assert!(q.unit == Unit::new(1, -(k as i8)));
+                    assert!(ueq(q.unit, Unit::new(1, -(k as i8))));
                     let back = Quantity::from(d.value);
-                    assert!(feq(back.value, q.value) && back.unit == q.unit);
+                    assert!(feq(back.value, q.value) && ueq(back.unit, q.unit));
                 }
             }
             kani::cover!(r == 2 && k == 1, "reach: constant velocity piece reports a velocity");
@@ -446,7 +446,7 @@ fn c06_history_after_completion_is_end_command() {
     }
     let same = |a: Option<Quantity>, b: Option<Quantity>| match (a, b) {
         (None, None) => true,
-        (Some(x), Some(y)) => feq(x.value, y.value) && x.unit == y.unit,
+        (Some(x), Some(y)) => feq(x.value, y.value) && ueq(x.unit, y.unit),
         _ => false,
     };
     assert!(same(mp.get_position(Time(t)), mp.end_command.get_position()));
@@ -512,7 +512,7 @@ static mut CONV_OUT: [i64; 3] = [0; 3];
 /// Abstraction CONV of `<Time as TryFrom<Quantity>>::try_from`: an arbitrary sign-preserving monotone map,
 /// consistent across the (at most three) calls the constructor makes.
 fn conv_abstract(was: Quantity) -> Result<Time, ()> {
-    if was.unit != Unit::new(0, 1) {
+    if !ueq(was.unit, Unit::new(0, 1)) {
         return Err(());
     }
     let out: i64 = kani::any();
@@ -548,7 +548,7 @@ fn any_unit_small() -> Unit {
     Unit::new(m, s)
 }
 
-//@ob fn="MotionProfile::new" at=src/motion_profile.rs:58 clause="for every start/end state (any f32 incl. inf/NaN) and every max_vel (mm/s) and max_acc (mm/s^2) value: if the three quotients t1, d_t3, d_t2 are >= 0.0 (i.e. the constructor's three assert!s pass) the constructor returns WITHOUT any panic a profile with 0 <= t1 <= t2 <= t3, start_pos = start position in mm, start_vel = start velocity in mm/s (bit-identical), max_acc in mm/s^2, end_command == Command::from(end_state) bit-identically.  Modular: Quantity*Quantity and Quantity/Quantity values arbitrary (units exact); seconds->ns conversion abstracted as unit-checked, sign-preserving, monotone (CONV, see c06_conv_*; rests on L1: x<=y => x*1e9<=y*1e9 in f32, not proved in Kani)"
+//@ob fn="MotionProfile::new" at=src/motion_profile.rs:58 prop=C06,C07 clause="for every start/end state (any f32 incl. inf/NaN) and every max_vel (mm/s) and max_acc (mm/s^2) value: if the three quotients t1, d_t3, d_t2 are >= 0.0 (i.e. the constructor's three assert!s pass) the constructor returns WITHOUT any panic a profile with 0 <= t1 <= t2 <= t3, start_pos = start position in mm, start_vel = start velocity in mm/s (bit-identical), max_acc in mm/s^2, end_command == Command::from(end_state) bit-identically.  Modular: Quantity*Quantity and Quantity/Quantity values arbitrary (units exact); seconds->ns conversion abstracted as unit-checked, sign-preserving, monotone (CONV, see c06_conv_*; rests on L1: x<=y => x*1e9<=y*1e9 in f32, not proved in Kani)"
 #[kani::proof]
 #[kani::unwind(4)]
 #[kani::stub(<Quantity as Mul<Quantity>>::mul, havoc_q_mul)]
@@ -564,9 +564,9 @@ fn c06_new_invariant() {
     let mp = MotionProfile::new(start, end, max_vel, max_acc);
     assert!(unsafe { DIV_K } == 5);
     assert!(0 <= mp.t1.0 && mp.t1.0 <= mp.t2.0 && mp.t2.0 <= mp.t3.0);
-    assert!(mp.start_pos.unit == Unit::new(1, 0) && feq(mp.start_pos.value, start.position));
-    assert!(mp.start_vel.unit == Unit::new(1, -1) && feq(mp.start_vel.value, start.velocity));
-    assert!(mp.max_acc.unit == Unit::new(1, -2));
+    assert!(ueq(mp.start_pos.unit, Unit::new(1, 0)) && feq(mp.start_pos.value, start.position));
+    assert!(ueq(mp.start_vel.unit, Unit::new(1, -1)) && feq(mp.start_vel.value, start.velocity));
+    assert!(ueq(mp.max_acc.unit, Unit::new(1, -2)));
     assert!(command_bits_eq(mp.end_command, Command::from(end)));
     kani::cover!(mp.t1.0 > 0 && mp.t1.0 < mp.t2.0 && mp.t2.0 < mp.t3.0, "reach: three non-empty pieces");
     kani::cover!(mp.t3.0 == i64::MAX, "reach: saturated t3");
@@ -575,7 +575,7 @@ fn c06_new_invariant() {
     reach!();
 }
 
-//@ob fn="MotionProfile::new" at=src/motion_profile.rs:58 clause="if one of the three quotients t1, d_t3, d_t2 is negative or NaN the constructor ALWAYS panics (so: it returns exactly when the three are >= 0.0, given right units)"
+//@ob fn="MotionProfile::new" at=src/motion_profile.rs:58 prop=C06,C07 clause="if one of the three quotients t1, d_t3, d_t2 is negative or NaN the constructor ALWAYS panics (so: it returns exactly when the three are >= 0.0, given right units)"
 #[kani::proof]
 #[kani::should_panic]
 #[kani::unwind(4)]
@@ -594,7 +594,7 @@ fn c06_new_negative_duration_panics() {
     kani::cover!(true, "unreach: returned normally");
 }
 
-//@ob fn="MotionProfile::new" at=src/motion_profile.rs:58 clause="wrong dimension of max_vel or max_acc (any exponents in [-8,8] other than mm/s and mm/s^2): the constructor ALWAYS panics (same over-approximation of * and / values; real Time::try_from)"
+//@ob fn="MotionProfile::new" at=src/motion_profile.rs:58 configs=dev clause="wrong dimension of max_vel or max_acc (any exponents in [-8,8] other than mm/s and mm/s^2): the constructor ALWAYS panics (same over-approximation of * and / values; real Time::try_from)"
 #[kani::proof]
 #[kani::should_panic]
 #[kani::stub(<Quantity as Mul<Quantity>>::mul, havoc_q_mul)]
@@ -605,18 +605,18 @@ fn c06_new_wrong_units_panics() {
     let end: State = kani::any();
     let max_vel = Quantity::new(kani::any(), any_unit_small());
     let max_acc = Quantity::new(kani::any(), any_unit_small());
-    kani::assume(max_vel.unit != Unit::new(1, -1) || max_acc.unit != Unit::new(1, -2));
+    kani::assume(!ueq(max_vel.unit, Unit::new(1, -1)) || !ueq(max_acc.unit, Unit::new(1, -2)));
     let _mp = MotionProfile::new(start, end, max_vel, max_acc);
     kani::cover!(true, "unreach: returned normally");
 }
 
-//@ob fn="<Time as TryFrom<Quantity>>::try_from" at=src/dimensions.rs:140 clause="CONV part 1 (real code): Err(()) exactly when the unit is not SECOND (all i8 x i8 units); for a non-negative f32 of seconds (inf included) the result is Ok and non-negative"
+//@ob fn="<Time as TryFrom<Quantity>>::try_from" at=src/dimensions.rs:140 configs=dev clause="CONV part 1 (real code): Err(()) exactly when the unit is not SECOND (all i8 x i8 units); for a non-negative f32 of seconds (inf included) the result is Ok and non-negative"
 #[kani::proof]
 fn c06_conv_unit_and_sign() {
     let x: f32 = kani::any();
     let u = Unit::new(kani::any::<i8>(), kani::any::<i8>());
     let r = Time::try_from(Quantity::new(x, u));
-    assert!(r.is_ok() == (u == Unit::new(0, 1)));
+    assert!(r.is_ok() == ueq(u, Unit::new(0, 1)));
     if let Ok(t) = r {
         if x >= 0.0 {
             assert!(t.0 >= 0);
@@ -654,6 +654,6 @@ fn c06_new_time_addition_monotone() {
     kani::assume(x >= 0.0 && d >= 0.0);
     let s = Quantity::new(x, SECOND) + Quantity::new(d, SECOND);
     assert!(s.value >= x && s.value >= d);
-    assert!(s.unit == SECOND);
+    assert!(ueq(s.unit, SECOND));
     reach!();
 }
